@@ -673,7 +673,7 @@ def mpf_psi0(x, prec, rnd=round_fast):
         v = mpf_psi0(mpf_add(x, fone, prec, rnd), prec, rnd)
         return mpf_sub(v, mpf_div(fone, x, wp, rnd), prec, rnd)
     # Reflection formula
-    if sign and exp+bc > 3:
+    if sign:
         c, s = mpf_cos_sin_pi(x, wp)
         q = mpf_mul(mpf_div(c, s, wp), mpf_pi(wp), wp)
         p = mpf_psi0(mpf_sub(fone, x, wp), wp)
